@@ -192,10 +192,21 @@ fn eval_inner(op: &Op, pre: Option<(&Shared, &[(String, Ctx)])>, chans: Option<&
             }
             Err(m) => m,
         },
+        Op::Revisit { e, c, t1, t2 } => match build(e, c) {
+            Ok(oh) => {
+                let sn = |t: i64| simcore::catch(|| format!("{} {}", oh.state(t), oh.next_change(t))).unwrap_or_else(|m| format!("PANIC: {m}"));
+                let a = sn(*t1);
+                let b = sn(*t2);
+                let a2 = sn(*t1);
+                format!("{a} | {b} | {a2}")
+            }
+            Err(m) => format!("{m} | {m} | {m}"),
+        },
         Op::Recontext { e, c1, c2, t } => match OpeningHours::parse(e) {
             Ok(base) => {
+                // each part is rendered on its own (an unwinding part must not take the others with it)
                 let sn = |v: &Result<AnyOh, String>| match v {
-                    Ok(oh) => format!("{} {}", oh.state(*t), oh.next_change(*t)),
+                    Ok(oh) => simcore::catch(|| format!("{} {}", oh.state(*t), oh.next_change(*t))).unwrap_or_else(|m| format!("PANIC: {m}")),
                     Err(m) => m.clone(),
                 };
                 let v1 = build_from(base.clone(), c1);
@@ -253,7 +264,10 @@ fn eval_inner(op: &Op, pre: Option<(&Shared, &[(String, Ctx)])>, chans: Option<&
         },
         Op::Send { chan, e, c, t, k } => {
             let Some(ch) = chans else { unreachable!("Send is rewritten for the reference") };
-            match build(e, c) {
+            // Whatever happens on this side (parse error, an evaluation that unwinds), the receiver gets a
+            // message: the hand-off protocol is the harness's, and a receiver left waiting would be reported
+            // as a deadlock of the library.
+            let prepared = simcore::catch(|| match build(e, c) {
                 Ok(oh) => {
                     let mut it = oh.iter(*t);
                     drop(oh); // the iterator must not depend on the value it was created from
@@ -264,20 +278,20 @@ fn eval_inner(op: &Op, pre: Option<(&Shared, &[(String, Ctx)])>, chans: Option<&
                             None => break,
                         }
                     }
-                    let tx = ch.tx[*chan as usize].lock().unwrap().take();
-                    if let Some(tx) = tx {
-                        let _ = tx.send((first.clone(), it));
-                    }
-                    first.join("")
+                    (first, it)
                 }
-                Err(m) => {
-                    let tx = ch.tx[*chan as usize].lock().unwrap().take();
-                    if let Some(tx) = tx {
-                        let _ = tx.send((vec![m.clone()], Box::new(std::iter::empty())));
-                    }
-                    m
-                }
+                Err(m) => (vec![m], Box::new(std::iter::empty()) as Box<dyn Iterator<Item = String> + Send>),
+            });
+            let (first, it): Msg = match prepared {
+                Ok(x) => x,
+                Err(m) => (vec![format!("PANIC: {m}")], Box::new(std::iter::empty())),
+            };
+            let out = first.join("");
+            let tx = ch.tx[*chan as usize].lock().unwrap().take();
+            if let Some(tx) = tx {
+                let _ = tx.send((first, it));
             }
+            out
         }
         Op::Recv { chan, n, .. } => {
             let Some(ch) = chans else { unreachable!("Recv is rewritten for the reference") };
@@ -300,6 +314,11 @@ fn eval_inner(op: &Op, pre: Option<(&Shared, &[(String, Ctx)])>, chans: Option<&
 /// leaking between the parts cannot hide in the reference.
 pub fn reference_ops(op: &Op, prebuilt: &[(String, Ctx)]) -> Vec<Op> {
     match op {
+        Op::Revisit { e, c, t1, t2 } => vec![
+            Op::StateNext { e: e.clone(), c: c.clone(), t: *t1 },
+            Op::StateNext { e: e.clone(), c: c.clone(), t: *t2 },
+            Op::StateNext { e: e.clone(), c: c.clone(), t: *t1 },
+        ],
         Op::Recontext { e, c1, c2, t } => vec![
             Op::StateNext { e: e.clone(), c: c1.clone(), t: *t },
             Op::StateNext { e: e.clone(), c: c2.clone(), t: *t },
